@@ -17,7 +17,7 @@ From Coq Require Import ZArith List Bool.
 From Tickit Require Import Csi VT XtermDefs XtermSpec XtermProofs.
 From Tickit Require Import RectDefs WinRectSet WinDefs WinSpec WinHist
   WinExposeProofs WinLogDisjoint WinFlushProofs WinScreenInv WinPreserve WinTermResize WinHistory WinC01Extra
-  WinRectSetProofs WinScrollDesc WinScrollRegion WinScrollFold WinScrollSpec WinScrollOps WinScrollInv WinHistoryFull WinReDefs WinReProofs WinReFlags WinReEstablish WinReExample WinReForest WinScrollXterm WinScrollXtermHist WinReFlush WinReFlushProofs WinReFlushSim.
+  WinRectSetProofs WinScrollDesc WinScrollRegion WinScrollFold WinScrollSpec WinScrollOps WinScrollInv WinHistoryFull WinReDefs WinReProofs WinReFlags WinReEstablish WinReExample WinReForest WinScrollXterm WinScrollXtermHist WinReFlush WinReFlushProofs WinReFlushSim WinFuelMono WinFuelTotal.
 From Tickit Require RBDefs RBSpec RBFlushDefs RBTermSim.
 From Tickit Require Import WinRBView WinEndToEnd WinEndToEndFinal.
 From Tickit Require WinInput WinInputProofs.
@@ -293,6 +293,44 @@ Theorem C01_init_full : forall nl nc orc, 0 < nl -> 0 < nc -> r_fault (m_root (m
   MInv3 (m_init nl nc orc).
 Proof. exact (@WinHistoryFull.init_inv3). Qed.
 Print Assumptions C01_init_full.
+
+(* TOTAL CORRECTNESS (no fuel qualifier): for every history over the alphabet WITHOUT the three
+   scroll operations ([fuel_alpha]: new, close, show, hide, restack, geometry, expose, FLUSH,
+   terminal resize, focus, cursor and control setters) there EXISTS an amount of fuel -- and then
+   every larger amount does -- with which no rectangle-set loop runs out: the run does not fault,
+   the invariant holds, and after a final flush every cell shows the composition.  From the C05
+   termination theorems (C05_add_terminates, C05_contains_terminates) and monotonicity in the
+   fuel (WinFuelMono.v; [scroll_region_mono], [shift_damage_mono] ... are proved for the scroll
+   helpers too, the state-level commutation and progress of _scroll are not: for histories WITH
+   scrolls the theorems above remain conditional on r_fault = false, for whatever fuel).
+   [sides_along]: each operation meets its side condition step_side3 in the state reached by the
+   prefix before it, for any fuel with which that prefix runs fault-free (the side conditions
+   read only the window tree, which is the same for every such fuel). *)
+Theorem C01_history_total : forall progs ops nl nc orc,
+  (forall id, progs id = [DPaint]) -> 0 < nl -> 0 < nc ->
+  forallb fuel_alpha ops = true -> sides_along progs ops nl nc orc ->
+  exists fuel, forall f, (fuel <= f)%nat ->
+    r_fault (m_root (run no_defects progs ops (m_init_f f nl nc orc))) = false /\
+    MInv3 (run no_defects progs ops (m_init_f f nl nc orc)).
+Proof. exact history_total_c01. Qed.
+Print Assumptions C01_history_total.
+
+Theorem C01_history_total_flushed : forall progs ops nl nc orc,
+  (forall id, progs id = [DPaint]) -> 0 < nl -> 0 < nc ->
+  forallb fuel_alpha ops = true -> sides_along progs (ops ++ [OFlush]) nl nc orc ->
+  exists fuel, forall f, (fuel <= f)%nat ->
+    r_fault (m_root (run no_defects progs (ops ++ [OFlush]) (m_init_f f nl nc orc))) = false /\
+    all_shown (run no_defects progs (ops ++ [OFlush]) (m_init_f f nl nc orc)).
+Proof. exact history_total_flushed. Qed.
+Print Assumptions C01_history_total_flushed.
+
+(* more fuel never changes a fault-free step: the run with more fuel is the same run *)
+Theorem C01_fuel_monotone : forall cfg progs o m f',
+  fuel_alpha o = true -> r_fault (m_root (step cfg progs o m)) = false ->
+  (r_fuel (m_root m) <= f')%nat ->
+  step cfg progs o (m_with_fuel f' m) = m_with_fuel f' (step cfg progs o m).
+Proof. exact step_wf. Qed.
+Print Assumptions C01_fuel_monotone.
 
 (* ---- expose handlers that re-enter the window layer during the flush ----
    (tickit_window_expose / show / hide / raise / lower / raise_to_front / lower_to_back called
